@@ -221,6 +221,17 @@ def signal_window(ctx, prog, A):
                 not cfg.reaches(f, sti[0].block.name, c.block.name, removed_blocks=[cli[0].block.name]) and \
                 not (sti[0].block is c.block and sti[0].idx < c.idx)
             ctx.ob('C16.signals', '%s() runs with the handled signals blocked (between cli() and sti())' % name, f.loc(c), ok, '')
+    # pairing: whatever happens to the operand (output not created, work done), the signals are unblocked again
+    # before the next operand is looked at or main() returns -- else the next run waits in halt() with the success
+    # signal blocked
+    rets = [b.name for b in f.blocks.values() if b.term.op == 'ret']
+    again = cfg.reachable(f, cli[0].block.name, removed_blocks=[sti[0].block.name])
+    # reaching cli() a second time, or a return, without passing sti()
+    loops_back = any(cli[0].block.name in f.blocks[b].succs for b in again)
+    leaves = [r for r in rets if r in again]
+    ctx.ob('C16.signals', 'every path from cli() to the next operand or out of main() passes sti() (the window is closed '
+           'whether or not the output could be created)', f.loc(sti[0]), not loops_back and not leaves,
+           'sti() can be bypassed on the way %s' % ('back to cli()' if loops_back else 'to a return of main()'))
     # signal tables
     hs = rules.global_ints(prog, 'signals', 'handled_signals')
     ctx.ob('C16.signals', 'handled signals include SIGINT, SIGTERM, SIGUSR1, SIGUSR2', 'src/signals.c',
